@@ -150,6 +150,8 @@ func checkC13R(c Case) *Failure {
 		return c13Law(c)
 	case "operand-sequence":
 		return c13Seq(c)
+	case "exists-agrees":
+		return c13ExistsAgrees(c)
 	}
 	return checkC13(c)
 }
